@@ -406,7 +406,8 @@ def check_role4(rep, prog, sf):
         can.add(x)
         st.extend(g.pred[x])
     entries = [b for b in sorted(g.reach) if b not in can and b != g.EXIT and any(p in can for p in g.pred[b])
-               and not sf.blocks[b]["cleanup"] and not any(g.dominates(dm, b) for dm in demob)]
+               and not sf.blocks[b]["cleanup"] and not any(g.dominates(dm, b) for dm in demob)
+               and sf.blocks[b]["term"]["k"] != "unreachable"]    # the impossible arm of an exhaustive match
     bad = []
     for e in entries:
         lits = c.must_literals(e)
